@@ -227,6 +227,29 @@ func genC01Wide(t *rapid.T) c01Case {
 	if ev.Thorough() {
 		g.maxAtoms = 7
 	}
+	f := wideFormula(t, g)
+	c := c01Case{Mode: "wide"}
+	c.Profile.Name = "c01w"
+	budget := rapid.IntRange(1, 3).Draw(t, "rwBudget")
+	f2 := rewrite(t, f, &budget)
+	c.Profile.Validations = []m.Validation{
+		{Name: "v0", Level: "violation", Class: "ex.Test", Body: f},
+		{Name: "v0rw", Level: "warning", Class: "ex.Test", Body: f2},
+	}
+	c.Pairs = [][2]string{{"v0", "v0rw"}}
+	for _, v := range c.Profile.Validations {
+		v.Body.MarkPolarity(m.Pos)
+	}
+	c.Graph = propositionalGraph(t, g.atoms)
+	c.ProfileText = c.Profile.ToY().Print(m.YOpts{})
+	c.DataText = c.Graph.JSONLD(m.LDOpts{})
+	c.Busy = rapid.IntRange(0, 7).Draw(t, "busy") == 0
+	return c
+}
+
+// wideFormula: an or (and) of 2-5 operands, each a conjunction (disjunction) of 1-3 atoms, the cross product of the
+// group sizes bounded by 24; some conjunctions are written as one propertyConstraints map.
+func wideFormula(t *rapid.T, g *fgen) *m.F {
 	outer := rapid.SampledFrom([]string{"or", "or", "and"}).Draw(t, "outer")
 	inner := "and"
 	if outer == "and" {
@@ -278,23 +301,7 @@ func genC01Wide(t *rapid.T) c01Case {
 	if rapid.IntRange(0, 3).Draw(t, "negWhole") == 0 {
 		f = m.Not(f)
 	}
-	c := c01Case{Mode: "wide"}
-	c.Profile.Name = "c01w"
-	budget := rapid.IntRange(1, 3).Draw(t, "rwBudget")
-	f2 := rewrite(t, f, &budget)
-	c.Profile.Validations = []m.Validation{
-		{Name: "v0", Level: "violation", Class: "ex.Test", Body: f},
-		{Name: "v0rw", Level: "warning", Class: "ex.Test", Body: f2},
-	}
-	c.Pairs = [][2]string{{"v0", "v0rw"}}
-	for _, v := range c.Profile.Validations {
-		v.Body.MarkPolarity(m.Pos)
-	}
-	c.Graph = propositionalGraph(t, g.atoms)
-	c.ProfileText = c.Profile.ToY().Print(m.YOpts{})
-	c.DataText = c.Graph.JSONLD(m.LDOpts{})
-	c.Busy = rapid.IntRange(0, 7).Draw(t, "busy") == 0
-	return c
+	return f
 }
 
 func expectedFailing(f *m.F, g *m.Graph, class string) (ids []string, ok bool) {
